@@ -12,6 +12,77 @@ use serde_json::{json, Value};
 
 pub struct C07;
 
+
+// ------------------------------------------------------------------------------------------------
+// the unifying error types: every error must survive `From` into `FromSliceError` / `ReadError` with
+// the same record in the matching variant
+
+thread_local! {
+    static CONV_MISMATCH: std::cell::RefCell<Vec<String>> = const { std::cell::RefCell::new(Vec::new()) };
+    static CONV_COUNT: std::cell::Cell<u64> = const { std::cell::Cell::new(0) };
+}
+
+fn obs_from_slice_error(e: &err::FromSliceError) -> ObsErr {
+    use err::FromSliceError::*;
+    match e {
+        Len(l) => obs_len(l),
+        LinuxSll(x) => obs_sll(x),
+        Macsec(x) => obs_macsec(x),
+        Ip(x) => obs_ip(x),
+        IpAuth(x) => obs_auth(x),
+        Ipv4(x) => obs_ipv4(x),
+        Ipv6(x) => obs_ipv6(x),
+        Ipv6Exts(x) => obs_v6ext(x),
+        Tcp(x) => obs_tcp(x),
+    }
+}
+
+fn obs_read_error(e: &err::ReadError) -> Option<ObsErr> {
+    use err::ReadError::*;
+    Some(match e {
+        Io(_) => return None,
+        Len(l) => obs_len(l),
+        LinuxSll(x) => obs_sll(x),
+        Macsec(x) => obs_macsec(x),
+        Ip(x) => obs_ip(x),
+        IpAuth(x) => obs_auth(x),
+        Ipv4(x) => obs_ipv4(x),
+        Ipv6(x) => obs_ipv6(x),
+        Ipv6Exts(x) => obs_v6ext(x),
+        Tcp(x) => obs_tcp(x),
+    })
+}
+
+/// convert `e` into both unifying error types and compare the records with `o`
+fn conv<E: Clone + std::fmt::Debug + Into<err::FromSliceError> + Into<err::ReadError>>(name: &str, e: &E, o: ObsErr) -> ObsErr {
+    CONV_COUNT.with(|c| c.set(c.get() + 2));
+    let f: err::FromSliceError = e.clone().into();
+    let r: err::ReadError = e.clone().into();
+    let of = obs_from_slice_error(&f);
+    let or = obs_read_error(&r);
+    // accessor helpers of the unifying types must agree with the variant
+    let acc_ok = match &f {
+        err::FromSliceError::Len(l) => f.len() == Some(l) && r.len() == Some(l),
+        err::FromSliceError::Tcp(x) => f.tcp() == Some(x) && r.tcp() == Some(x),
+        err::FromSliceError::Ipv4(x) => f.ipv4() == Some(x) && r.ipv4() == Some(x),
+        err::FromSliceError::Ipv6(x) => f.ipv6() == Some(x) && r.ipv6() == Some(x),
+        err::FromSliceError::Ip(x) => f.ip() == Some(x) && r.ip() == Some(x),
+        err::FromSliceError::IpAuth(x) => f.ip_auth() == Some(x) && r.ip_auth() == Some(x),
+        err::FromSliceError::Ipv6Exts(x) => f.ipv6_exts() == Some(x) && r.ipv6_exts() == Some(x),
+        err::FromSliceError::Macsec(x) => f.macsec() == Some(x) && r.macsec() == Some(x),
+        err::FromSliceError::LinuxSll(x) => f.linux_sll() == Some(x) && r.linux_sll() == Some(x),
+    };
+    if of != o || or.as_ref() != Some(&o) || !acc_ok {
+        CONV_MISMATCH.with(|m| {
+            let mut m = m.borrow_mut();
+            if m.len() < 4 {
+                m.push(format!("{}: {:?} became FromSliceError {:?} / ReadError {:?} (accessors consistent: {})", name, e, f, r, acc_ok));
+            }
+        });
+    }
+    o
+}
+
 /// every error (returned or stop error) produced by the whole-packet families for this start
 fn whole_packet_errors(start: Start, b: &[u8]) -> Vec<(&'static str, bool, bool, ObsErr)> {
     // (entry, lax?, struct family?, error)
@@ -20,68 +91,68 @@ fn whole_packet_errors(start: Start, b: &[u8]) -> Vec<(&'static str, bool, bool,
     match start {
         Start::Ethernet => {
             if let Err(e) = SlicedPacket::from_ethernet(b) {
-                v.push(("SlicedPacket::from_ethernet", false, false, obs_slice_error(&e)));
+                v.push(("SlicedPacket::from_ethernet", false, false, conv("packet::SliceError", &e, obs_slice_error(&e))));
             }
             if let Err(e) = PacketHeaders::from_ethernet_slice(b) {
-                v.push(("PacketHeaders::from_ethernet_slice", false, true, obs_slice_error(&e)));
+                v.push(("PacketHeaders::from_ethernet_slice", false, true, conv("packet::SliceError", &e, obs_slice_error(&e))));
             }
             match LaxSlicedPacket::from_ethernet(b) {
-                Err(e) => v.push(("LaxSlicedPacket::from_ethernet", true, false, obs_len(&e))),
+                Err(e) => v.push(("LaxSlicedPacket::from_ethernet", true, false, conv("LenError", &e, obs_len(&e)))),
                 Ok(p) => {
                     if let Some((e, _)) = &p.stop_err {
-                        v.push(("LaxSlicedPacket::from_ethernet", true, false, obs_slice_error(e)));
+                        v.push(("LaxSlicedPacket::from_ethernet", true, false, conv("packet::SliceError", e, obs_slice_error(e))));
                     }
                 }
             }
             match LaxPacketHeaders::from_ethernet(b) {
-                Err(e) => v.push(("LaxPacketHeaders::from_ethernet", true, true, obs_len(&e))),
+                Err(e) => v.push(("LaxPacketHeaders::from_ethernet", true, true, conv("LenError", &e, obs_len(&e)))),
                 Ok(p) => {
                     if let Some((e, _)) = &p.stop_err {
-                        v.push(("LaxPacketHeaders::from_ethernet", true, true, obs_slice_error(e)));
+                        v.push(("LaxPacketHeaders::from_ethernet", true, true, conv("packet::SliceError", e, obs_slice_error(e))));
                     }
                 }
             }
         }
         Start::LinuxSll => {
             if let Err(e) = SlicedPacket::from_linux_sll(b) {
-                v.push(("SlicedPacket::from_linux_sll", false, false, obs_slice_error(&e)));
+                v.push(("SlicedPacket::from_linux_sll", false, false, conv("packet::SliceError", &e, obs_slice_error(&e))));
             }
             match LaxPacketHeaders::from_linux_sll(b) {
                 Err(err::linux_sll::HeaderSliceError::Len(l)) => v.push(("LaxPacketHeaders::from_linux_sll", true, true, obs_len(&l))),
                 Err(err::linux_sll::HeaderSliceError::Content(c)) => v.push(("LaxPacketHeaders::from_linux_sll", true, true, obs_sll(&c))),
                 Ok(p) => {
                     if let Some((e, _)) = &p.stop_err {
-                        v.push(("LaxPacketHeaders::from_linux_sll", true, true, obs_slice_error(e)));
+                        v.push(("LaxPacketHeaders::from_linux_sll", true, true, conv("packet::SliceError", e, obs_slice_error(e))));
                     }
                 }
             }
         }
         Start::EtherType(e) => {
             if let Err(x) = SlicedPacket::from_ether_type(et(e), b) {
-                v.push(("SlicedPacket::from_ether_type", false, false, obs_slice_error(&x)));
+                v.push(("SlicedPacket::from_ether_type", false, false, conv("packet::SliceError", &x, obs_slice_error(&x))));
             }
             if let Err(x) = PacketHeaders::from_ether_type(et(e), b) {
-                v.push(("PacketHeaders::from_ether_type", false, true, obs_slice_error(&x)));
+                v.push(("PacketHeaders::from_ether_type", false, true, conv("packet::SliceError", &x, obs_slice_error(&x))));
             }
             if let Some((x, _)) = &LaxSlicedPacket::from_ether_type(et(e), b).stop_err {
-                v.push(("LaxSlicedPacket::from_ether_type", true, false, obs_slice_error(x)));
+                v.push(("LaxSlicedPacket::from_ether_type", true, false, conv("packet::SliceError", x, obs_slice_error(x))));
             }
             if let Some((x, _)) = &LaxPacketHeaders::from_ether_type(et(e), b).stop_err {
-                v.push(("LaxPacketHeaders::from_ether_type", true, true, obs_slice_error(x)));
+                v.push(("LaxPacketHeaders::from_ether_type", true, true, conv("packet::SliceError", x, obs_slice_error(x))));
             }
         }
         Start::Ip => {
             if let Err(x) = SlicedPacket::from_ip(b) {
-                v.push(("SlicedPacket::from_ip", false, false, obs_slice_error(&x)));
+                v.push(("SlicedPacket::from_ip", false, false, conv("packet::SliceError", &x, obs_slice_error(&x))));
             }
             if let Err(x) = PacketHeaders::from_ip_slice(b) {
-                v.push(("PacketHeaders::from_ip_slice", false, true, obs_slice_error(&x)));
+                v.push(("PacketHeaders::from_ip_slice", false, true, conv("packet::SliceError", &x, obs_slice_error(&x))));
             }
             match LaxSlicedPacket::from_ip(b) {
                 Err(e) => v.push(("LaxSlicedPacket::from_ip", true, false, lax_ip_err(&e))),
                 Ok(p) => {
                     if let Some((e, _)) = &p.stop_err {
-                        v.push(("LaxSlicedPacket::from_ip", true, false, obs_slice_error(e)));
+                        v.push(("LaxSlicedPacket::from_ip", true, false, conv("packet::SliceError", e, obs_slice_error(e))));
                     }
                 }
             }
@@ -89,7 +160,7 @@ fn whole_packet_errors(start: Start, b: &[u8]) -> Vec<(&'static str, bool, bool,
                 Err(e) => v.push(("LaxPacketHeaders::from_ip", true, true, lax_ip_err(&e))),
                 Ok(p) => {
                     if let Some((e, _)) = &p.stop_err {
-                        v.push(("LaxPacketHeaders::from_ip", true, true, obs_slice_error(e)));
+                        v.push(("LaxPacketHeaders::from_ip", true, true, conv("packet::SliceError", e, obs_slice_error(e))));
                     }
                 }
             }
@@ -114,17 +185,25 @@ fn headers_err(e: &err::ip::HeadersError) -> ObsErr {
 }
 
 fn v6_stop(e: &err::ipv6_exts::HeaderSliceError) -> ObsErr {
-    match e {
-        err::ipv6_exts::HeaderSliceError::Len(l) => obs_len(l),
-        err::ipv6_exts::HeaderSliceError::Content(c) => obs_v6ext(c),
-    }
+    conv(
+        "ipv6_exts::HeaderSliceError",
+        e,
+        match e {
+            err::ipv6_exts::HeaderSliceError::Len(l) => obs_len(l),
+            err::ipv6_exts::HeaderSliceError::Content(c) => obs_v6ext(c),
+        },
+    )
 }
 
 fn auth_stop(e: &err::ip_auth::HeaderSliceError) -> ObsErr {
-    match e {
-        err::ip_auth::HeaderSliceError::Len(l) => obs_len(l),
-        err::ip_auth::HeaderSliceError::Content(c) => obs_auth(c),
-    }
+    conv(
+        "ip_auth::HeaderSliceError",
+        e,
+        match e {
+            err::ip_auth::HeaderSliceError::Len(l) => obs_len(l),
+            err::ip_auth::HeaderSliceError::Content(c) => obs_auth(c),
+        },
+    )
 }
 
 /// errors of the IP front ends on an input that starts with an IP header.
@@ -137,10 +216,14 @@ fn ip_front_end_errors(b: &[u8]) -> Vec<(&'static str, bool, bool, Option<u8>, O
             false,
             false,
             None,
-            match &e {
-                err::ip::SliceError::Len(l) => obs_len(l),
-                err::ip::SliceError::IpHeaders(h) => headers_err(h),
-            },
+            conv(
+                "ip::SliceError",
+                &e,
+                match &e {
+                    err::ip::SliceError::Len(l) => obs_len(l),
+                    err::ip::SliceError::IpHeaders(h) => headers_err(h),
+                },
+            ),
         ));
     }
     if let Err(e) = Ipv4Slice::from_slice(b) {
@@ -149,11 +232,15 @@ fn ip_front_end_errors(b: &[u8]) -> Vec<(&'static str, bool, bool, Option<u8>, O
             false,
             false,
             Some(4),
-            match &e {
-                err::ipv4::SliceError::Len(l) => obs_len(l),
-                err::ipv4::SliceError::Header(h) => obs_ipv4(h),
-                err::ipv4::SliceError::Exts(x) => obs_auth(x),
-            },
+            conv(
+                "ipv4::SliceError",
+                &e,
+                match &e {
+                    err::ipv4::SliceError::Len(l) => obs_len(l),
+                    err::ipv4::SliceError::Header(h) => obs_ipv4(h),
+                    err::ipv4::SliceError::Exts(x) => obs_auth(x),
+                },
+            ),
         ));
     }
     let v6e = |e: &err::ipv6::SliceError| match e {
@@ -162,7 +249,7 @@ fn ip_front_end_errors(b: &[u8]) -> Vec<(&'static str, bool, bool, Option<u8>, O
         err::ipv6::SliceError::Exts(x) => obs_v6ext(x),
     };
     if let Err(e) = Ipv6Slice::from_slice(b) {
-        v.push(("Ipv6Slice::from_slice", false, false, Some(6), v6e(&e)));
+        v.push(("Ipv6Slice::from_slice", false, false, Some(6), conv("ipv6::SliceError", &e, v6e(&e))));
     }
     if let Err(e) = Ipv6Slice::from_slice_lax(b) {
         v.push(("Ipv6Slice::from_slice_lax", true, false, Some(6), v6e(&e)));
@@ -190,10 +277,14 @@ fn ip_front_end_errors(b: &[u8]) -> Vec<(&'static str, bool, bool, Option<u8>, O
             false,
             true,
             None,
-            match &e {
-                err::ip::HeadersSliceError::Len(l) => obs_len(l),
-                err::ip::HeadersSliceError::Content(h) => headers_err(h),
-            },
+            conv(
+                "ip::HeadersSliceError",
+                &e,
+                match &e {
+                    err::ip::HeadersSliceError::Len(l) => obs_len(l),
+                    err::ip::HeadersSliceError::Content(h) => headers_err(h),
+                },
+            ),
         ));
     }
     if let Err(e) = IpHeaders::from_ipv4_slice(b) {
@@ -404,6 +495,13 @@ pub fn check(start: Start, b: &[u8], ctx: &mut Ctx) -> Result<(), Failure> {
                 }
             }
         }
+    }
+    let conv_n = CONV_COUNT.with(|c| c.replace(0));
+    ctx.eval(conv_n);
+    let conv_bad: Vec<String> = CONV_MISMATCH.with(|m| std::mem::take(&mut *m.borrow_mut()));
+    if let Some(first) = conv_bad.first() {
+        let ty = first.split(':').next().unwrap_or("?").to_string();
+        return ctx.fail(Failure::new(format!("C07|From<{}>|conversion-changes-the-error", ty), "an error converted into FromSliceError / ReadError keeps its record in the matching variant", conv_bad.join(" ;; "), input_json(start, b)));
     }
     if judged > 0 {
         ctx.class("has-error");
